@@ -233,6 +233,76 @@ def rule_r2(chk, prog):
     # collect_information + fresh Producer per sweep: C05.R3 covers rebinding
 
 
+def rule_r12(chk, prog):
+    chk.rule('C02.R12', 'a result whose delivered verdict is "accepted" and '
+             'that is read while the flag is clear is adopted: on every path '
+             'of the result loop the input is replaced unless the verdict '
+             'delivered by the worker - not a value computed afterwards - '
+             'is false or the flag is set')
+    from ..cfg import stmt_effects
+    m = prog.mod('strategy_hierarchical')
+    f = m.func('reduce')
+    where = 'strategy_hierarchical.reduce'
+    cfg = cfg_of(f)
+    fors = [l for l in ast.walk(f) if isinstance(l, ast.For) and any(
+        (call_name(c) or '').split('.')[-1] in ('imap_unordered', 'imap',
+                                                'map')
+        for c in ast.walk(l.iter) if isinstance(c, ast.Call))]
+    if len(fors) != 1:
+        raise AnalysisError('hierarchical.reduce: result loop not unique')
+    fl = fors[0]
+    inp = params_of(f)[0]
+    # the delivered verdict: first component unpacked from the result
+    unp = [st for st in ast.walk(fl) if isinstance(st, ast.Assign)
+           and isinstance(st.targets[0], ast.Tuple) and isinstance(
+               st.value, ast.Call) and (call_name(st.value) or '').endswith(
+                   'loads')]
+    if len(unp) != 1 or not isinstance(unp[0].targets[0].elts[0], ast.Name):
+        raise AnalysisError('hierarchical.reduce: cannot find where the '
+                            'result is unpacked')
+    verdict = unp[0].targets[0].elts[0].id
+    un = cfg.node_of[id(unp[0])]
+    n = 0
+    for p in loop_body_paths(cfg, fl):
+        if un not in p.nodes:
+            continue
+        if any(t.endswith('.is_set()') and pol for (t, pol) in p.facts):
+            continue  # discarded result (C02.R3)
+        n += 1
+        adopted = False
+        genuine = True  # the verdict variable still holds what was delivered
+        rejected = False
+        seen_un = False
+        for i, nd in enumerate(p.nodes):
+            if nd is un:
+                seen_un = True
+                continue
+            if not seen_un:
+                continue
+            bound, _ = stmt_effects(nd)
+            if verdict in bound:
+                genuine = False
+            if inp in bound:
+                adopted = True
+            # a false test of the genuine verdict on the edge leaving nd
+            if genuine and i < len(p.steps) and any(
+                    (t == verdict and not pol)
+                    or (t == f'not {verdict}' and pol)
+                    for (t, pol) in p.steps[i]):
+                rejected = True
+        chk.check('C02.R12', where, f'{describe_path(p)}: accepted => '
+                  'adopted', adopted or rejected,
+                  'a result is dropped on a path where the verdict delivered '
+                  f'by the worker ("{verdict}") was not false'
+                  + ('' if genuine else f' ("{verdict}" is overwritten '
+                     'before it is tested)')
+                  + ': a proposal the command accepts is not adopted, so '
+                  'the result is not a fixed point of the enabled mutators',
+                  loc=m.loc(fl), nontrivial=True)
+    chk.floor('C02.R12', 'paths of the result loop with the flag clear', n,
+              2)
+
+
 def _innermost_loop(node):
     n = getattr(node, '_parent', None)
     while n is not None:
@@ -559,6 +629,7 @@ def run(tier):
     chk.guard(rule_r4, chk, prog)
     chk.guard(rule_r5, chk, prog)
     chk.guard(rule_r6, chk, prog)
+    chk.guard(rule_r12, chk, prog)
     # "every enabled mutator" and "any s-expression of the output": the set
     # of enabled mutators is not changed behind the user's back between the
     # strategies, and the walk that enumerates the candidates' nodes visits
